@@ -276,14 +276,19 @@ pub fn gen_hash_project(rng: &mut Rng, k: u64) -> Project {
         // banks and segments, the same file imported twice with parameter blocks
         5 => {
             p.label = format!("gen{}:banks_segments", k);
+            // several banks cannot be written as a .prg
+            p.toml = p.toml.replace("output-format = \"prg\"\n", "");
             // sometimes the banks go to their own files (two banks may share one file)
-            let (f1, f2) = match rng.below(4) {
+            let (f1, f2) = match rng.below(6) {
                 0 => ("    filename = \"hdr.bin\"\n", "    filename = \"main.bin\"\n"),
                 1 => ("    filename = \"both.bin\"\n", "    filename = \"both.bin\"\n"),
+                // the sub directory does not exist: both files fail to be created
+                2 => ("    filename = \"roms/hdr.bin\"\n", "    filename = \"roms/main.bin\"\n"),
+                3 => ("    filename = \"hdr.bin\"\n", "    filename = \"roms/main.bin\"\n"),
                 _ => ("", ""),
             };
             main.push_str(&format!(".define bank {{\n    name = \"hdr\"\n    size = 16\n    fill = 0\n    create-segment = true\n{}}}\n.define bank {{\n    name = \"main\"\n{}}}\n", f1, f2));
-            main.push_str(".define segment {\n    name = \"code\"\n    start = $c000\n    bank = \"main\"\n}\n.define segment {\n    name = \"data\"\n    start = segments.code.end\n    bank = \"main\"\n}\n");
+            main.push_str(".define segment {\n    name = \"code\"\n    start = $c000\n    bank = \"main\"\n}\n.define segment {\n    name = \"data\"\n    start = $c800\n    bank = \"main\"\n}\n");
             main.push_str(".segment \"hdr\" {\n    .text \"HDR\"\n    .byte 1, 2\n}\n");
             main.push_str(".segment \"code\" {\nstart:\n    jsr set_a\n    jsr set_b\n    lda table\n    rts\n");
             main.push_str(".import set_it as set_a from \"param.asm\" {\n    .const ADDRESS = $d020\n}\n.import set_it as set_b from \"param.asm\" {\n    .const ADDRESS = $d021\n}\n}\n");
